@@ -5,6 +5,7 @@ import random
 from common import lean_obligations, build_harness, unhx
 import lrfamily as lf
 import treeparse as tp
+import oracles
 
 LEVEL = "proof"
 PROP_MODULE = "Rustemo.Props.C02"
@@ -36,7 +37,7 @@ def oracle(c):
         for leaf in tp.leaves(t):
             (s, _, _), (e, _, _) = leaf["span"]
             gap = data[pos:s]
-            if s < pos or gap.strip(WS.encode()) != b"":
+            if s < pos or not oracles.is_ws(gap):
                 okk = False
                 break
             rs = lf.rec_string(d, leaf["kind"])
@@ -44,7 +45,7 @@ def oracle(c):
                 okk = False
                 break
             pos = e
-        if okk and partial == "0" and data[pos:].strip(WS.encode()) != b"":
+        if okk and partial == "0" and not oracles.is_ws(data[pos:]):
             okk = False
         if not okk:
             bad.append((k, "leaves are not the tokens of the consumed input in order"))
